@@ -4,6 +4,7 @@ import (
 	"fmt"
 	"go/ast"
 	"go/token"
+	"sort"
 	"strings"
 )
 
@@ -21,6 +22,10 @@ import (
 //     critical sections): per method the number of gang.lock.Lock/RLock calls, of deferred and of
 //     explicit Unlock/RUnlock calls, and whether a child-set map is mentioned before the first Lock.
 //     One Lock + one deferred Unlock + no explicit Unlock + nothing before = the method is one section;
+//   * gang.go isGangValidForPermit: every field / method it mentions (the model's validForPermit reads exactly
+//     HasGangInit, GangMatchPolicy, MinRequiredNumber, the sizes of WaitingForBindChildren / BoundChildren and the
+//     group's OnceResourceSatisfied — not WaitingGangIDs, BindingMemberPods or the representative pod, which the
+//     model leaves out);  core.go Unreserve / AfterPostFilter: the gang / manager methods they call, in order;
 //   * gang.go tryInitByPodConfig / tryInitByPodGroup: the test that guards the "gang is a group of its own"
 //     fallback (`groupSlice = append(groupSlice, gang.Name)`): "len==0" or "nil" (the model's groupOrSelf is len==0).
 func init() {
@@ -287,6 +292,48 @@ func init() {
 		fmt.Fprintf(&e.out, "def gangLockShape : List (String × Nat × Nat × Nat × Bool) := [%s]\n", strings.Join(shapes, ", "))
 		fmt.Fprintf(&e.out, "def setChildSections : Nat := %d\n", setChildSections)
 
+
+		// ---- what the permit / rejection decisions read ----
+		selNames := func(fd *ast.FuncDecl, skip map[string]bool) []string {
+			seen := map[string]bool{}
+			ast.Inspect(fd.Body, func(x ast.Node) bool {
+				if s, ok := x.(*ast.SelectorExpr); ok && !skip[s.Sel.Name] {
+					seen[s.Sel.Name] = true
+				}
+				return true
+			})
+			var out []string
+			for k := range seen {
+				out = append(out, k)
+			}
+			sort.Strings(out)
+			return out
+		}
+		if fd := e.funcDecl(core, "Gang", "isGangValidForPermit"); fd != nil && fd.Body != nil {
+			fmt.Fprintf(&e.out, "def validForPermitReads : List String := %s\n",
+				lst(selNames(fd, map[string]bool{"lock": true, "RLock": true, "RUnlock": true, "Infof": true, "Name": true})))
+		} else {
+			e.fail("Gang.isGangValidForPermit not found")
+		}
+		decisionCalls := map[string]bool{"GetGangByPod": true, "delAssumedPod": true, "addAssumedPod": true, "getGangMatchPolicy": true,
+			"isGangOnceResourceSatisfied": true, "getGangMode": true, "rejectGangGroupById": true, "rejectGangGroup": true,
+			"clearWaitingGang": true, "IsPodNeedGang": true, "addBoundPod": true}
+		for _, m := range []string{"Unreserve", "AfterPostFilter", "PostBind"} {
+			var seq []string
+			if fd := e.funcDecl(core, "PodGroupManager", m); fd != nil && fd.Body != nil {
+				ast.Inspect(fd.Body, func(x ast.Node) bool {
+					if c, ok := x.(*ast.CallExpr); ok {
+						if s, ok := c.Fun.(*ast.SelectorExpr); ok && decisionCalls[s.Sel.Name] {
+							seq = append(seq, s.Sel.Name)
+						}
+					}
+					return true
+				})
+			} else {
+				e.fail("PodGroupManager.%s not found", m)
+			}
+			fmt.Fprintf(&e.out, "def core%sCalls : List String := %s\n", m, lst(seq))
+		}
 		// ---- the fallback "the gang is a group of its own" ----
 		var fb []string
 		for _, m := range []string{"tryInitByPodConfig", "tryInitByPodGroup"} {
